@@ -279,7 +279,7 @@ let () =
            "q k ok nstates fresh_vars_at_return gap_bound_at_return min_recomputed_multiplier_at_return" *)
         (match o with
          | OS | OF when check_inv ->
-             let (_, (st_ok, nst2)) = step_w_chk stationarityb fuel !s op in
+             let (_, (st_ok, nst2)) = step_w_chk kkt_stateb fuel !s op in
              let qs = function Some q -> Printf.sprintf "%.6e" (float_of_q q) | None -> "none" in
              (match r with
               | Ok s' -> Printf.printf "q %d %d %d %d %s %s\n" k (if st_ok then 1 else 0) (int_of_nat nst2)
@@ -318,6 +318,18 @@ let () =
       | None -> ()
       | Some (k, is_solve) ->
           let s0 = static_init (Array.to_list inst.vs) (Array.to_list inst.cs) in
+          (* the invariants of Vpsc/StaticInvB.v on every state of the merge pass: line "j k dag mask nstates allsat same" *)
+          if n <= 40 then begin
+            let dag = is_dag (base s0) in
+            let (((rc, mask), cnt), allsat) = merge_pass_chk s0 in
+            let same = (match rc, merge_pass s0 with
+              | Ok a, Ok b -> final_positions (base a) = final_positions (base b) && (base a).cact = (base b).cact && (base a).vblk = (base b).vblk
+              | ThrowUnsat a, ThrowUnsat b -> a = b
+              | OutOfFuel, OutOfFuel -> true
+              | _ -> false) in
+            Printf.printf "j %d %d %d %d %d %d\n" k (if dag then 1 else 0) (int_of_nat mask) (int_of_nat cnt)
+              (if allsat then 1 else 0) (if same then 1 else 0)
+          end;
           let (r, tie_at_end) = if is_solve then static_solve_t s0 else static_satisfy_t s0 in
           (match r with
            | Ok s' ->
